@@ -1,8 +1,8 @@
 package main
 
-// Static write-effect analysis used when a loop is cut: which heap sorts may
-// be written through pre-existing ("old") references, which only through
-// objects allocated during the analysed code ("fresh").
+// Static write-effect analysis used when a loop is cut (and to summarise
+// callees that are inlined): which heap sorts may be written, and through
+// which references.
 
 import (
 	"go/ast"
@@ -12,24 +12,47 @@ import (
 )
 
 type fx struct {
-	old     map[string]bool
-	fresh   map[string]bool
+	full    map[string]bool        // written through references the analysis cannot name
+	targets map[string][]ssa.Value // written only through these values (defined outside the analysed region)
+	fresh   map[string]bool        // written through objects allocated inside the analysed region
+	params  map[int]bool           // summaries: the function writes through its i-th parameter (pointer or stream)
+	binds   map[int]bool           // summaries: ... through its i-th free variable
 	unknown bool
 	ghost   bool
+
+	fn         *ssa.Function
+	region     map[*ssa.BasicBlock]bool // nil: whole function
+	freshParam map[*ssa.Parameter]bool
 }
 
-func newFx() *fx { return &fx{old: map[string]bool{}, fresh: map[string]bool{}} }
-
-func (f *fx) merge(o *fx) {
-	for k := range o.old {
-		f.old[k] = true
-	}
-	for k := range o.fresh {
-		f.fresh[k] = true
-	}
-	f.unknown = f.unknown || o.unknown
-	f.ghost = f.ghost || o.ghost
+func newFx(fn *ssa.Function) *fx {
+	return &fx{full: map[string]bool{}, targets: map[string][]ssa.Value{}, fresh: map[string]bool{}, params: map[int]bool{}, binds: map[int]bool{}, fn: fn}
 }
+
+// extWrites: which arguments an assumed library contract writes through
+// (everything else is read-only for the heap; ghost stream state aside).
+var extWrites = map[string][]int{
+	"encoding/binary.Read":       {0, 2},
+	"encoding/binary.Write":      {0},
+	"(*bytes.Buffer).Write":      {0},
+	"(*bytes.Buffer).Truncate":   {0},
+	"(*bytes.Buffer).Next":       {0},
+	"(*bytes.Buffer).Read":       {0, 1},
+	"(*bytes.Buffer).ReadByte":   {0},
+	"(*bytes.Buffer).ReadFrom":   {0, 1},
+	"(*bytes.Reader).Read":       {0, 1},
+	"(*bytes.Reader).ReadAt":     {1},
+	"(*io.SectionReader).ReadAt": {1},
+	"(*io.SectionReader).Read":   {0, 1},
+	"io.Copy":                    {0, 1},
+	"io.CopyN":                   {0, 1},
+	"io.ReadAll":                 {0},
+	"io.MultiReader":             {0},
+	"encoding/pem.Encode":        {0},
+	"(*golang.org/x/text/transform.Writer).Write": {0},
+}
+
+var streamSorts = []string{"T_bytes_Buffer", "T_bytes_Reader", "T_io_SectionReader"}
 
 // baseOf walks address computations up to their root value.
 func baseOf(v ssa.Value) ssa.Value {
@@ -53,34 +76,125 @@ func baseOf(v ssa.Value) ssa.Value {
 	}
 }
 
+func (f *fx) inRegion(in ssa.Instruction) bool {
+	if in.Block() == nil || in.Parent() != f.fn {
+		return false
+	}
+	return f.region == nil || f.region[in.Block()]
+}
+
+func (f *fx) addTarget(sort string, v ssa.Value) {
+	for _, o := range f.targets[sort] {
+		if o == v {
+			return
+		}
+	}
+	f.targets[sort] = append(f.targets[sort], v)
+}
+
+func (x *Exec) paramIndex(fn *ssa.Function, p *ssa.Parameter) int {
+	for i, q := range fn.Params {
+		if q == p {
+			return i
+		}
+	}
+	return -1
+}
+
 func (x *Exec) classifyWrite(f *fx, addr ssa.Value) {
 	base := baseOf(addr)
-	pt, ok := base.Type().Underlying().(*types.Pointer)
-	if !ok {
-		if _, isIface := base.Type().Underlying().(*types.Interface); isIface {
-			f.ghost = true
-		}
-		return
-	}
-	if !isStructLike(pt.Elem()) {
-		return // Go-side cell: handled dynamically
-	}
-	sort := x.w.SortOf(pt.Elem())
-	switch b := base.(type) {
-	case *ssa.Alloc:
-		f.fresh[sort] = true
-	case *ssa.Call:
-		// constructors of fresh objects
-		if callee := b.Call.StaticCallee(); callee != nil {
-			switch callee.String() {
-			case "bytes.NewBuffer", "bytes.NewReader", "io.NewSectionReader":
-				f.fresh[sort] = true
+	if _, isIface := base.Type().Underlying().(*types.Interface); isIface {
+		f.ghost = true
+		switch b := base.(type) {
+		case *ssa.Parameter:
+			if b.Parent() == f.fn {
+				f.params[x.paramIndex(f.fn, b)] = true
+				return
+			}
+		case *ssa.UnOp:
+			// *captured: a stream variable captured by reference
+			if fv, ok := b.X.(*ssa.FreeVar); ok && fv.Parent() == f.fn {
+				for i, q := range f.fn.FreeVars {
+					if q == fv {
+						f.binds[i] = true
+					}
+				}
 				return
 			}
 		}
-		f.old[sort] = true
+		// some other interface value: its dynamic value may be any stream object
+		for _, g := range streamSorts {
+			if x.w.DTByName(g) != nil {
+				f.full[g] = true
+			}
+		}
+		return
+	}
+	pt, ok := base.Type().Underlying().(*types.Pointer)
+	if !ok {
+		return
+	}
+	if !isStructLike(pt.Elem()) {
+		// Go-side cell: handled dynamically, but summaries must report it
+		switch b := base.(type) {
+		case *ssa.Parameter:
+			if b.Parent() == f.fn {
+				f.params[x.paramIndex(f.fn, b)] = true
+			}
+		case *ssa.FreeVar:
+			for i, q := range f.fn.FreeVars {
+				if q == b {
+					f.binds[i] = true
+				}
+			}
+		}
+		return
+	}
+	sort := x.w.SortOf(pt.Elem())
+	isCtor := func(c *ssa.Call) bool {
+		if callee := c.Call.StaticCallee(); callee != nil {
+			switch callee.String() {
+			case "bytes.NewBuffer", "bytes.NewReader", "io.NewSectionReader", "golang.org/x/crypto/cryptobyte.NewBuilder":
+				return true
+			}
+		}
+		return false
+	}
+	switch b := base.(type) {
+	case *ssa.Alloc:
+		if f.inRegion(b) {
+			f.fresh[sort] = true
+		} else {
+			f.addTarget(sort, b)
+		}
+	case *ssa.Parameter:
+		if f.freshParam != nil && f.freshParam[b] {
+			f.fresh[sort] = true
+			return
+		}
+		if b.Parent() == f.fn {
+			f.params[x.paramIndex(f.fn, b)] = true
+		}
+		f.addTarget(sort, b)
+	case *ssa.FreeVar:
+		for i, q := range f.fn.FreeVars {
+			if q == b {
+				f.binds[i] = true
+			}
+		}
+		f.addTarget(sort, b)
 	default:
-		f.old[sort] = true
+		if in, ok := base.(ssa.Instruction); ok {
+			if c, isCall := base.(*ssa.Call); isCall && isCtor(c) && f.inRegion(in) {
+				f.fresh[sort] = true
+				return
+			}
+			if !f.inRegion(in) && in.Parent() == f.fn {
+				f.addTarget(sort, base)
+				return
+			}
+		}
+		f.full[sort] = true
 	}
 }
 
@@ -97,16 +211,57 @@ func (x *Exec) instrEffects(f *fx, in ssa.Instruction, visiting map[*ssa.Functio
 	}
 }
 
+// applySummary maps a callee summary onto the call site.
+func (x *Exec) applySummary(f *fx, sub *fx, args []ssa.Value, binds []ssa.Value) {
+	for s := range sub.full {
+		f.full[s] = true
+	}
+	for s := range sub.fresh {
+		f.fresh[s] = true
+	}
+	f.unknown = f.unknown || sub.unknown
+	f.ghost = f.ghost || sub.ghost
+	for i := range sub.params {
+		if i >= 0 && i < len(args) {
+			x.classifyWrite(f, args[i])
+		} else {
+			f.unknown = true
+		}
+	}
+	for i := range sub.binds {
+		if i < len(binds) {
+			x.classifyWrite(f, binds[i])
+		} else if len(binds) == 0 {
+			// free variables of an enclosing function seen from a nested closure summary
+			f.unknown = true
+		}
+	}
+}
+
 func (x *Exec) callFx(f *fx, cc *ssa.CallCommon, visiting map[*ssa.Function]bool) {
 	if _, ok := cc.Value.(*ssa.Builtin); ok {
 		return
 	}
 	if cc.IsInvoke() {
-		// interface method: contract handlers write only ghost state of the receiver
+		switch cc.Method.Name() {
+		case "Size", "Sum", "NewDecoder", "NewEncoder", "Len", "Name":
+			if _, ok := ifaceMethods[cc.Method.Name()]; ok {
+				return // pure in the assumed contract
+			}
+		case "ReadAt":
+			f.ghost = true
+			if len(cc.Args) > 0 {
+				x.classifyWrite(f, cc.Args[0])
+			}
+			return
+		}
 		if _, ok := ifaceMethods[cc.Method.Name()]; ok {
 			f.ghost = true
+			x.classifyWrite(f, cc.Value)
 			for _, a := range cc.Args {
-				x.classifyWrite(f, a)
+				if _, isSl := a.Type().Underlying().(*types.Slice); !isSl {
+					x.classifyWrite(f, a)
+				}
 			}
 			return
 		}
@@ -114,9 +269,11 @@ func (x *Exec) callFx(f *fx, cc *ssa.CallCommon, visiting map[*ssa.Function]bool
 		return
 	}
 	callee := cc.StaticCallee()
+	var binds []ssa.Value
 	if callee == nil {
 		if mc, ok := cc.Value.(*ssa.MakeClosure); ok {
 			callee = mc.Fn.(*ssa.Function)
+			binds = mc.Bindings
 		} else {
 			f.unknown = true
 			return
@@ -126,10 +283,49 @@ func (x *Exec) callFx(f *fx, cc *ssa.CallCommon, visiting map[*ssa.Function]bool
 	if callee.Origin() != nil {
 		name = callee.Origin().String()
 	}
+	if _, ok := cpsExterns[name]; ok {
+		f.ghost = true
+		if name != "sort.Search" && len(cc.Args) > 0 {
+			x.classifyWrite(f, cc.Args[0])
+		}
+		for _, a := range cc.Args {
+			if mc, ok := a.(*ssa.MakeClosure); ok {
+				cf := mc.Fn.(*ssa.Function)
+				sub := newFx(cf)
+				if name != "sort.Search" && len(cf.Params) > 0 {
+					// the continuation's builder argument is a fresh child builder
+					sub.freshParam = map[*ssa.Parameter]bool{cf.Params[0]: true}
+				}
+				x.fnEffectsInto(sub, cf, visiting)
+				x.applySummary(f, sub, nil, mc.Bindings)
+			}
+		}
+		return
+	}
 	if _, ok := externs[name]; ok {
 		f.ghost = true
-		for _, a := range cc.Args {
-			x.classifyWrite(f, a)
+		for _, i := range extWrites[name] {
+			if i < len(cc.Args) {
+				if name == "encoding/binary.Read" && i == 2 {
+					if _, isMI := cc.Args[i].(*ssa.MakeInterface); !isMI {
+						// data taken from a literal []interface{}{&a.f, &b.g}: the
+						// pointers address objects of this function
+						x.allocTargets(f)
+						continue
+					}
+				}
+				x.classifyWrite(f, cc.Args[i])
+			}
+		}
+		if len(name) > 40 && name[:40] == "(*golang.org/x/crypto/cryptobyte.Builder" && len(cc.Args) > 0 {
+			x.classifyWrite(f, cc.Args[0])
+		}
+		if len(name) > 39 && name[:39] == "(*golang.org/x/crypto/cryptobyte.String" {
+			for _, a := range cc.Args {
+				if _, isPtr := a.Type().Underlying().(*types.Pointer); isPtr {
+					x.classifyWrite(f, a)
+				}
+			}
 		}
 		return
 	}
@@ -143,26 +339,60 @@ func (x *Exec) callFx(f *fx, cc *ssa.CallCommon, visiting map[*ssa.Function]bool
 		}
 		for _, m := range c.Modifies {
 			for _, ex := range m.Exprs {
-				x.modFx(f, callee, ex)
+				x.modFx(f, callee, cc, binds, ex)
 			}
 		}
 		return
 	}
-	f.merge(x.fnEffects(callee, visiting))
+	x.applySummary(f, x.fnEffects(callee, visiting), cc.Args, binds)
 }
 
-// modFx: effect of one modifies target, by static type.
-func (x *Exec) modFx(f *fx, callee *ssa.Function, ex ast.Expr) {
+// modFx: effect of one modifies target of a callee contract at a call site.
+func (x *Exec) modFx(f *fx, callee *ssa.Function, cc *ssa.CallCommon, binds []ssa.Value, ex ast.Expr) {
+	argOf := func(name string) (ssa.Value, bool) {
+		for i, p := range callee.Params {
+			if p.Name() == name && i < len(cc.Args) {
+				return cc.Args[i], true
+			}
+		}
+		for i, fv := range callee.FreeVars {
+			if fv.Name() == name && i < len(binds) {
+				return binds[i], true
+			}
+		}
+		return nil, false
+	}
+	rootIdent := func(e ast.Expr) (string, bool) {
+		for {
+			switch n := e.(type) {
+			case *ast.Ident:
+				return n.Name, true
+			case *ast.SelectorExpr:
+				e = n.X
+			case *ast.ParenExpr:
+				e = n.X
+			case *ast.StarExpr:
+				e = n.X
+			case *ast.IndexExpr:
+				e = n.X
+			default:
+				return "", false
+			}
+		}
+	}
 	switch n := ex.(type) {
 	case *ast.StarExpr:
 		if id, ok := n.X.(*ast.Ident); ok {
-			for _, p := range append(append([]*ssa.Parameter{}, callee.Params...)) {
-				if p.Name() == id.Name {
-					if pt, ok := p.Type().Underlying().(*types.Pointer); ok && isStructLike(pt.Elem()) {
-						f.old[x.w.SortOf(pt.Elem())] = true
-					}
-					return
-				}
+			if a, ok := argOf(id.Name); ok {
+				x.classifyWrite(f, a)
+				return
+			}
+		}
+		// *p.field: an object reachable from a parameter: any object of that sort
+		if name, ok := rootIdent(n.X); ok {
+			if _, ok := argOf(name); ok {
+				x.fullBySelector(f, callee, n.X)
+				return
 			}
 		}
 		f.unknown = true
@@ -171,14 +401,22 @@ func (x *Exec) modFx(f *fx, callee *ssa.Function, ex ast.Expr) {
 			switch id.Name {
 			case "rem", "out":
 				f.ghost = true
-				// the actual may be a *bytes.Buffer: its heap is written
-				f.old["T_bytes_Buffer"] = true
-				f.old["T_bytes_Reader"] = true
+				if aid, ok := n.Args[0].(*ast.Ident); ok {
+					if a, ok := argOf(aid.Name); ok {
+						x.classifyWrite(f, a)
+						return
+					}
+				}
+				for _, g := range streamSorts {
+					if x.w.DTByName(g) != nil {
+						f.full[g] = true
+					}
+				}
 				return
 			case "heap":
 				if tid, ok := n.Args[0].(*ast.Ident); ok {
 					if s := x.sortByTypeName(callee, tid.Name); s != "" {
-						f.old[s] = true
+						f.full[s] = true
 						return
 					}
 				}
@@ -186,14 +424,9 @@ func (x *Exec) modFx(f *fx, callee *ssa.Function, ex ast.Expr) {
 		}
 		f.unknown = true
 	case *ast.Ident:
-		// captured variable: a cell or a struct
-		for _, fv := range callee.FreeVars {
-			if fv.Name() == n.Name {
-				if pt, ok := fv.Type().Underlying().(*types.Pointer); ok && isStructLike(pt.Elem()) {
-					f.old[x.w.SortOf(pt.Elem())] = true
-				}
-				return
-			}
+		if a, ok := argOf(n.Name); ok {
+			x.classifyWrite(f, a)
+			return
 		}
 		f.unknown = true
 	default:
@@ -201,16 +434,77 @@ func (x *Exec) modFx(f *fx, callee *ssa.Function, ex ast.Expr) {
 	}
 }
 
+// fullBySelector: `*p.f.g` in a modifies clause: the sort of the selected pointer.
+func (x *Exec) fullBySelector(f *fx, callee *ssa.Function, e ast.Expr) {
+	// resolve the static type by walking the selector over the parameter's type
+	var walk func(e ast.Expr) types.Type
+	walk = func(e ast.Expr) types.Type {
+		switch n := e.(type) {
+		case *ast.Ident:
+			for _, p := range callee.Params {
+				if p.Name() == n.Name {
+					return p.Type()
+				}
+			}
+		case *ast.SelectorExpr:
+			t := walk(n.X)
+			if t == nil {
+				return nil
+			}
+			if pt, ok := t.Underlying().(*types.Pointer); ok {
+				t = pt.Elem()
+			}
+			if st, ok := t.Underlying().(*types.Struct); ok {
+				for i := 0; i < st.NumFields(); i++ {
+					if st.Field(i).Name() == n.Sel.Name {
+						return st.Field(i).Type()
+					}
+				}
+			}
+		}
+		return nil
+	}
+	t := walk(e)
+	if t != nil {
+		if pt, ok := t.Underlying().(*types.Pointer); ok && isStructLike(pt.Elem()) {
+			f.full[x.w.SortOf(pt.Elem())] = true
+			return
+		}
+	}
+	f.unknown = true
+}
+
 var fxCache = map[*ssa.Function]*fx{}
 
+// fnEffects: context-free summary of a function.
 func (x *Exec) fnEffects(fn *ssa.Function, visiting map[*ssa.Function]bool) *fx {
 	if r, ok := fxCache[fn]; ok {
 		return r
 	}
-	f := newFx()
+	f := newFx(fn)
+	x.fnEffectsInto(f, fn, visiting)
+	// targets of a summary are its own parameters/free variables (already in
+	// params/binds) or objects it allocated: nothing else to report
+	for s, ts := range f.targets {
+		for _, t := range ts {
+			switch t.(type) {
+			case *ssa.Parameter, *ssa.FreeVar:
+			default:
+				f.fresh[s] = true
+			}
+		}
+	}
+	f.targets = map[string][]ssa.Value{}
+	if !visiting[fn] {
+		fxCache[fn] = f
+	}
+	return f
+}
+
+func (x *Exec) fnEffectsInto(f *fx, fn *ssa.Function, visiting map[*ssa.Function]bool) {
 	if visiting[fn] || fn.Blocks == nil {
 		f.unknown = true
-		return f
+		return
 	}
 	visiting[fn] = true
 	for _, b := range fn.Blocks {
@@ -219,16 +513,32 @@ func (x *Exec) fnEffects(fn *ssa.Function, visiting map[*ssa.Function]bool) *fx 
 		}
 	}
 	delete(visiting, fn)
-	fxCache[fn] = f
-	return f
 }
 
-func (x *Exec) loopEffects(lp *Loop) *fx {
-	f := newFx()
+func (x *Exec) loopEffects(fn *ssa.Function, lp *Loop) *fx {
+	f := newFx(fn)
+	f.region = lp.body
 	for b := range lp.body {
 		for _, in := range b.Instrs {
 			x.instrEffects(f, in, map[*ssa.Function]bool{})
 		}
 	}
 	return f
+}
+
+// allocTargets: every struct object allocated in (or passed by pointer to) the
+// analysed function may be written.
+func (x *Exec) allocTargets(f *fx) {
+	for _, b := range f.fn.Blocks {
+		for _, in := range b.Instrs {
+			if a, ok := in.(*ssa.Alloc); ok {
+				x.classifyWrite(f, a)
+			}
+		}
+	}
+	for _, p := range f.fn.Params {
+		if _, ok := p.Type().Underlying().(*types.Pointer); ok {
+			x.classifyWrite(f, p)
+		}
+	}
 }
